@@ -373,7 +373,10 @@ def handle (i o : Json) : Except String Reply := do
                                             rmAlwaysDb := CylcModel.RmFlags.alwaysDb,
                                             anyOutput := CylcModel.RmFlags.anyOutput,
                                             triggerUnpooled := CylcModel.RmFlags.triggerUnpooled,
-                                            dbRowPerFlowSet := CylcModel.RmFlags.dbRowPerFlowSet } }
+                                            dbRowPerFlowSet := false,
+                                            rowInsertMode := CylcModel.RmFlags.rowInsertMode,
+                                            qotSkipsPrepped := CylcModel.RmFlags.qotSkipsPrepped,
+                                            releaseQueueIfReady := CylcModel.RmFlags.releaseQueueIfReady } }
   let ops := (jArrField? i "ops").getD []
   let obs := ((obsList o).map parseOb).toArray
   let fails := judgeAll c.graph ops (parseRms c.graph i) obs
